@@ -31,8 +31,26 @@ impl World {
         let drops0 = drops_len();
         let mut ret_some = None;
         let snap_pre = if self.verify && (op.is_mutator()) { Some(self.arena().verif_heap_snapshot(SNAP_CAP)) } else { None };
-        self.apply_inner(op, &mut ret_some)?;
+        let nobj0 = self.sh.objs.len();
+        let res = self.apply_inner(op, &mut ret_some);
         let post = self.phase();
+        // objects allocated by this callback while the arena was Sweeping are not on the sweep list
+        if pre == P::Sweeping {
+            for o in &mut self.sh.objs[nobj0..] {
+                o.born_sweeping = true;
+            }
+        }
+        res?;
+        if matches!(op.k, K::CycleStep | K::FinCycle | K::MarkStep | K::FinMark | K::StartSweep) && pre == P::Sweeping {
+            if let Some((i, _)) = self.sh.objs.iter().enumerate().find(|(_, o)| o.born_sweeping && o.dropped) {
+                viol!("c08.swept_into_next_cycle", "{op:?} started while Sweeping and destructed object {i}, which was allocated during that sweep: the call ran on into a new cycle");
+            }
+        }
+        if post != P::Sweeping || matches!(op.k, K::Step | K::Fault) {
+            for o in &mut self.sh.objs {
+                o.born_sweeping = false;
+            }
+        }
         let debt_post = self.metrics.allocation_debt();
 
         // ---- coverage of barrier situations (hook used for accounting only)
